@@ -150,6 +150,47 @@ def enc(case, obs):
 KINDS = [("pass", 8), ("fail", 2), ("error", 1), ("pending", 1), ("undefined", 1), ("skip", 1)]
 
 
+# ------------------------------------------------------------------ where the rerun file is written (python -m behave, both runs)
+def impl_where(case):
+    import subprocess, sys, json
+    import common
+    top = tempfile.mkdtemp(prefix="verif_c17w_")
+    try:
+        os.makedirs(os.path.join(top, "features", "steps"))
+        with open(os.path.join(top, "features", "a.feature"), "w") as fh:
+            fh.write("Feature: A\n  Scenario: ok\n    Given pass\n  Scenario: bad\n    Given fail\n  Scenario: ok2\n    Given pass\n")
+        with open(os.path.join(top, "features", "steps", "s.py"), "w") as fh:
+            fh.write("from behave import given\n@given('pass')\ndef p(c):\n    pass\n@given('fail')\ndef f(c):\n    assert False\n")
+        os.makedirs(os.path.join(top, os.path.dirname(case["out"]) or "."), exist_ok=True)
+        env = dict(os.environ, PYTHONPATH=common.REPO, HOME=top)
+        subprocess.run([sys.executable, "-m", "behave", "--no-color", "-f", "rerun", "-o", case["out"], "features"], cwd=top, env=env,
+                       capture_output=True, text=True, timeout=120)
+        try:
+            content = open(os.path.join(top, case["out"])).read()
+        except OSError:
+            return {"content": None}
+        p2 = subprocess.run([sys.executable, "-m", "behave", "--no-color", "-f", "json", "-o", "r2.json", "@" + case["out"]], cwd=top, env=env,
+                            capture_output=True, text=True, timeout=120)
+        try:
+            rep = json.load(open(os.path.join(top, "r2.json")))
+            ran = sorted(el["name"] for f in rep for el in f.get("elements", []) if el.get("status") not in (None, "skipped", "untested"))
+        except Exception:      # noqa
+            ran = None
+        return {"content": content, "ran": ran, "tail": (p2.stdout + p2.stderr)[-200:]}
+    finally:
+        shutil.rmtree(top, True)
+
+
+def oracle_where(case, obs):
+    if obs.get("content") is None:
+        return [("no rerun file at %s" % case["out"], "rerun-file-missing")]
+    if obs.get("ran") != ["bad"]:
+        sig = "rerun-file-in-subdirectory-not-fed-back" if os.path.dirname(case["out"]) not in ("", ".") else "feedback-skips-listed-scenario"
+        return [("rerun file written to %s and fed back as @%s: the second run executed %s instead of ['bad'] (%s)" % (
+            case["out"], case["out"], obs.get("ran"), (obs.get("tail") or "").strip().splitlines()[-1:]), sig)]
+    return []
+
+
 def suites(tier, seed):
     rnd = random.Random(seed * 15485863 % (2 ** 31) + 17)
     n = 700 if tier == "thorough" else 110
@@ -200,7 +241,10 @@ def suites(tier, seed):
             whole_first = fnames[feats[rnd.randrange(len(feats))]["id"]]
         cases.append({"whole_first": whole_first, "files": files, "order": [fnames[f["id"]] for f in feats], "hookfail": hookfail, "linemap": linemap, "stale": (i % 7 == 0) or rnd.random() < 0.2, "prog": prog,
                       "dry_run": prog["cfg"]["dry_run"]})
-    return [{"name": "histories", "cases": cases, "impl": impl_history, "oracle": oracle,
+    where = {"name": "rerun_file_location", "cases": [{"out": "rerun.txt"}, {"out": "out/rerun.txt"}, {"out": "./rerun.failing.txt"}],
+             "impl": impl_where, "oracle": oracle_where, "exhaustive": True, "nontrivial": lambda c, o: True,
+             "bound": "3 places for the rerun file, both runs by python -m behave (oracle only)"}
+    return [where, {"name": "histories", "cases": cases, "impl": impl_history, "oracle": oracle,
              "nontrivial": lambda c, o: o["file_exists"] and 0 < len([1 for x in o["first"] if x[2] in FAILING]) < len(o["first"]),
              "bound": "%d two-run histories over 1-3 files" % n,
              "coq": {"header": HEADER, "in_ty": "cfgdata * list feature", "out_ty": "list nat",
